@@ -3853,6 +3853,11 @@ class ScoreVariant(object):
 
                     # make a copy of the object
                     o_copy = copy(o)
+                    # the shallow copy shares its lists of references (slurs,
+                    # tuplets, ...) with the original: give the copy its own
+                    for attr in getattr(o, "_ref_attrs", []):
+                        if isinstance(getattr(o, attr, None), list):
+                            setattr(o_copy, attr, list(getattr(o, attr)))
                     # add it to the set of new objects (for which the refs will
                     # be replaced)
                     o_new.add(o_copy)
